@@ -126,8 +126,14 @@ def run_go_harness(binary, test_name, in_path, out_path, cwd=None, timeout=600, 
 # ----------------------------------------------------------------------------------------------
 
 class CoqLock:
+    """flock on coq/.lock[.<name>]: the global lock protects _CoqProject/Makefile generation and the shared
+    common/ targets; a per-property lock serialises builds of one property's files only."""
+
+    def __init__(self, name=""):
+        self.path = os.path.join(COQ, ".lock" + ("." + name if name else ""))
+
     def __enter__(self):
-        self.f = open(os.path.join(COQ, ".lock"), "w")
+        self.f = open(self.path, "w")
         fcntl.flock(self.f, fcntl.LOCK_EX)
         return self
 
@@ -166,23 +172,36 @@ def coq_prepare():
         run(["coq_makefile", "-f", "_CoqProject", "-o", "Makefile"], cwd=COQ, check=True)
 
 
+def _lock_name(targets):
+    for t in targets:
+        b = os.path.basename(t)
+        m = re.match(r"(C\d+)_", b)
+        if m:
+            return m.group(1)
+    return "misc"
+
+
 def coq_make(targets, timeout=1500, clean=False):
     """Full .vo build of the given targets (paths relative to coq/). Returns (ok, log)."""
+    t0 = time.time()
     with CoqLock():
         coq_prepare()
         if clean:
             run(["make", "clean"], cwd=COQ, timeout=120)
             coq_prepare()
+        common = [f[:-2] + ".vo" for f in coq_project_files() if f.startswith("common/")]
+        if common:
+            run(["timeout", str(timeout), "make", "-j8"] + common, cwd=COQ, timeout=timeout + 30)
+    with CoqLock(_lock_name(targets)):
         rc, so, se, dt = run(["timeout", str(timeout), "make", "-j16"] + list(targets), cwd=COQ, timeout=timeout + 30)
-    log("coq make %s: rc=%d %.1fs" % (" ".join(targets), rc, dt))
+    log("coq make %s: rc=%d %.1fs (%.1fs incl. locks)" % (" ".join(targets)[:120], rc, dt, time.time() - t0))
     return rc == 0, so + se
 
 
 def coq_compile_capture(vfile, timeout=600):
     """Recompile one file (relative to coq/) and return (ok, stdout+stderr) - used for *_Props.v so that
     `Print Assumptions` output is captured on every run."""
-    with CoqLock():
-        coq_prepare()
+    with CoqLock(_lock_name([vfile])):
         rc, so, se, dt = run(["timeout", str(timeout), "coqc", "-Q", ".", "Dae", vfile], cwd=COQ, timeout=timeout + 30)
     return rc == 0, so + se
 
